@@ -92,7 +92,8 @@ def matches_known(known, prop, obname, inputs, native):
     for k in known:
         if k.get("status") != "known" or k.get("property") != prop:
             continue
-        if k.get("obligation") and k["obligation"] != obname:
+        obs = k.get("obligation")
+        if obs and obname not in (obs if isinstance(obs, list) else [obs]):
             continue
         sig = k.get("signature")
         if sig:
@@ -156,7 +157,7 @@ def main(argv):
         ctx = multiprocessing.get_context("fork")
         with ctx.Pool(nproc) as pool:
             results = pool.map(_worker, jobs, chunksize=1)
-    n_obl = n_dis = 0
+    n_obl = n_dis = n_known_obl = 0
     by_kind, by_backend = {}, {}
     solver_s, max_s = 0.0, 0.0
     functions = []
@@ -211,6 +212,8 @@ def main(argv):
             k = matches_known(known, prop, ob["name"], ob.get("inputs"), native)
             if k and (reproduced or k.get("allow_unreplayed")):
                 known_hits.append(k)
+                n_obl -= 1          # reported separately: a known finding is neither discharged nor claimed
+                n_known_obl += 1
                 continue
             if reproduced:
                 violations.append((ob["name"], path, ""))
@@ -223,7 +226,7 @@ def main(argv):
     # lock comparison: an obligation proved on the unchanged tree that vanished is not a pass
     missing = [n for n in lock if n not in proved_names and not any(n == v[0] for v in violations)
                and not any(n.startswith(d["function"] + "#") for d in demoted)
-               and not any(u.startswith(n) for u in undecided) and not any(k.get("obligation") == n for k in known_hits)]
+               and not any(u.startswith(n) for u in undecided) and not any(n in (k.get("obligation") if isinstance(k.get("obligation"), list) else [k.get("obligation")]) for k in known_hits)]
     # ------------------------------------------------------------------ bounded layer
     bounded = []
     for bname in cfg.get("bounded", []):
@@ -257,6 +260,7 @@ def main(argv):
         "obligations": n_obl, "discharged": n_dis,
         "checker_cmd": "./check %s --tier %s" % (prop, tier),
         "trusted_base": P.TRUSTED_BASE + cfg.get("trusted", []),
+        "known_finding_obligations_refuted_and_replayed": n_known_obl,
         "obligations_by_kind": by_kind, "discharged_by_backend": by_backend,
         "solver_seconds_sum": round(solver_s, 2), "solver_seconds_max_single": round(max_s, 2),
         "functions_under_contract": functions,
